@@ -483,12 +483,21 @@ class Interp:
         self.child_side = {}
         self.sides = {}
         self.mat = {}
+        self.chosen = {}
         if self.opts.get("depth_bound"):
             self.depth_bound = tuple(self.opts["depth_bound"])
 
     # ---- choices
     def choose(self, key, options):
         assert len(options) >= 1
+        # one decision per key and path: asking the same abstract question twice gives the same answer
+        if key in self.chosen and self.chosen[key] in options:
+            return self.chosen[key]
+        v = self.choose_(key, options)
+        self.chosen[key] = v
+        return v
+
+    def choose_(self, key, options):
         if len(options) == 1:
             self.summary.inputs.append((key, options[0]))
             return options[0]
